@@ -510,9 +510,10 @@ def r3_order_parity(rule, root=None):
         rule.ok("simplify walks self.ssa.tape forward")
     # RegTape::new feeds the allocator in SSA order; SsaTape iter is forward
     rt = A.find_fn("fidget-core/src/compiler/reg_tape.rs", "new", self_ty="RegTape", root=root)
-    loops = list(A.find(rt["body"], "For"))
-    t = A.ftxt(loops[0]["iter"]) if loops else ""
-    if len(loops) == 1 and t == "ssa.iter()" and "alloc.op(op)" in A.ftxt(loops[0]["body"]):
+    # `for &op in ssa.iter() { alloc.op(op) }` or its iterator-chain spelling: one call fed by one forward walk
+    feeds = [c for c in A.find(rt["body"], "MethodCall") if c["method"] == "op" and len(c["args"]) == 1 and A.ident(A.strip(c["recv"]))]
+    binders = (A.enclosing_binders(rt["body"], feeds[0]) or []) if len(feeds) == 1 else []
+    if len(binders) == 1 and binders[0][0] == A.ident(A.strip(feeds[0]["args"][0])) and A.iter_source(binders[0][1]) == "ssa":
         rule.ok("RegTape::new allocates in SSA order")
     else:
         rule.bad("regtape-new", "RegTape::new must feed every op of `ssa.iter()` to the allocator in order", A.where(rt))
